@@ -136,11 +136,21 @@ theorem version_equal_interchangeable (a b x : Version.Version) (h : Version.cmp
     Version.cmp a x = Version.cmp b x ∧ Version.cmp x a = Version.cmp x b :=
   ⟨Version.cmp_totalPre.congr_left h x, Version.cmp_totalPre.congr_right h x⟩
 
-/-- toolkit/types/version.go is a copy of version.go: the bodies of `Compare`,
-    `Contains` and `String` are the same text, so the theorems of this section
-    are about both (the harness drives both as well). -/
+/-- toolkit/types/version.go is a copy of version.go: `Compare`, `Contains` and
+    `String` of the two copies answer alike on the table of boundary values the
+    extractor runs both on at every check (Gen.Versions, evaluated: every pair of
+    440 versions, ranges × versions, every version), so the theorems of this
+    section are about both (the harness drives both as well).  One copy may be
+    rewritten; a behavioural divergence makes an entry false. -/
 theorem toolkit_copy_same_source :
     Gen.Versions.toolkitCopySame = [("Version.Compare", true), ("Range.Contains", true), ("Version.String", true)] := by
+  decide
+
+/-- ... and so do the two copies of the text codec (`MarshalText`, and
+    `UnmarshalText` of some 390 well- and ill-formed texts into a fresh, a used
+    and a nil receiver). -/
+theorem toolkit_copy_same_codec :
+    Gen.Versions.toolkitCopyCodecSame = [("Version.MarshalText", true), ("Version.UnmarshalText", true)] := by
   decide
 
 /-- `(*Range).Contains` is membership in the half-open interval:
